@@ -28,7 +28,7 @@ inductive Blk
 
 inductive Val
   | word (n : Nat)
-  | ptr (b : Blk)
+  | ptr (k : Blk)
 
 structure Regs where
   ax : Val
